@@ -96,11 +96,16 @@ func (i *Index) Add(r Record, c bgzf.Chunk, placed, mapped bool) error {
 	rid, ok := i.nameMap[refName]
 	if !ok {
 		rid = len(i.refNames)
+	}
+	shim := tabixShim{id: rid, start: r.Start(), end: r.End()}
+	err := i.idx.Add(shim, internal.BinFor(r.Start(), r.End()), c, placed, mapped)
+	if !ok && len(i.idx.Refs) > rid {
+		// Only name references that are present in the index;
+		// unplaced and rejected records do not add a reference.
 		i.refNames = append(i.refNames, refName)
 		i.nameMap[refName] = rid
 	}
-	shim := tabixShim{id: rid, start: r.Start(), end: r.End()}
-	return i.idx.Add(shim, internal.BinFor(r.Start(), r.End()), c, placed, mapped)
+	return err
 }
 
 // Chunks returns a []bgzf.Chunk that corresponds to the given genomic interval.
